@@ -17,6 +17,7 @@ CONSTANTS
   ApiClears = TRUE
   ApiNotifies = TRUE
   GraftNeedsStream = TRUE
+  ApiSkipsIfPresent = FALSE
 INVARIANT TypeOK
 INVARIANT P_C16_NoInject
 INVARIANT P_C16_Refuse
